@@ -2,6 +2,9 @@
    One answer line per input line.
      p <forced lang id> <meta charset> <hex>   wbxml_parser_parse with content handlers registered;
                                                answer: "ok <events>" or "err <CODE>"
+     r <k> {<forced> <meta> <hex>}*k           ONE WBXMLParser object, k documents parsed one after the other
+                                               (language and meta charset set before every parse, 0 = unknown);
+                                               answer: the k answers of `p`, joined by " || "
      t <forced lang id> <meta charset> <hex>   wbxml_tree_from_wbxml; answer "ok <tree>" or "err <CODE> tree=null"
      x <1 = no string table> 0 <hex of XML>    wbxml_conv_xml2wbxml_run; answer "ok <wbxml hex>" or "err <CODE>"
      c <forced lang id> <meta charset> <hex>   wbxml_conv_wbxml2xml_run; answer "ok <xml hex>" or
@@ -155,13 +158,37 @@ static const char *errname(WBXMLError e) {
     }
 }
 
+#define MAX_SEQ 16
 int main(void) {
-    char *line, *tok[6];
+    char *line, *tok[2 + 3 * MAX_SEQ];
     WBXMLContentHandler h = { h_start_doc, h_end_doc, h_start_elt, h_end_elt, h_chars, h_pi };
     while ((line = vh_line(stdin)) != NULL) {
-        int nt = vh_split(line, tok, 6);
+        int nt = vh_split(line, tok, 2 + 3 * MAX_SEQ);
         size_t n; unsigned char *d;
         long forced, meta;
+        if (nt >= 2 && strcmp(tok[0], "r") == 0) {
+            long k = strtol(tok[1], NULL, 10), i;
+            WBXMLParser *p;
+            if (k < 1 || k > MAX_SEQ || nt != 2 + 3 * k) { printf("bad\n"); continue; }
+            p = wbxml_parser_create();
+            wbxml_parser_set_content_handler(p, &h);
+            for (i = 0; i < k; i++) {
+                WBXMLError e;
+                forced = strtol(tok[2 + 3 * i], NULL, 10); meta = strtol(tok[3 + 3 * i], NULL, 10);
+                d = vh_unhex(tok[4 + 3 * i], &n);
+                out_len = 0; if (out) out[0] = 0;
+                wbxml_parser_set_language(p, (WBXMLLanguage) forced);             /* WBXML_LANG_UNKNOWN = 0 */
+                wbxml_parser_set_meta_charset(p, (WBXMLCharsetMIBEnum) meta);     /* WBXML_CHARSET_UNKNOWN = 0 */
+                e = wbxml_parser_parse(p, d, (WB_ULONG) n);
+                if (i) printf(" || ");
+                if (e == WBXML_OK) printf("ok %s", out ? out : "");
+                else printf("err %s", errname(e));
+                free(d);
+            }
+            printf("\n");
+            wbxml_parser_destroy(p);
+            continue;
+        }
         if (nt < 4) { printf("bad\n"); continue; }
         forced = strtol(tok[1], NULL, 10); meta = strtol(tok[2], NULL, 10);
         d = vh_unhex(tok[3], &n);
